@@ -34,6 +34,7 @@ type raceJob struct {
 	TransformE int            `json:"transform_e"` // number of failing services for it
 	SeqFirst   bool           `json:"seq_first"`   // run the loads alone BEFORE the concurrent phase (default: after, so that the
 	// concurrent loads hit a cold process: lazily filled package-level state is then first touched concurrently)
+	Trav *travCase `json:"trav,omitempty"` // round 6: ONLY the dependency-ordered traversal on an explicit graph (trav.go)
 }
 
 type mismatch struct {
@@ -135,6 +136,10 @@ func main() {
 	}
 	if job.Procs > 0 {
 		runtime.GOMAXPROCS(job.Procs)
+	}
+	if job.Trav != nil {
+		runTravCase(job)
+		return
 	}
 	if job.Rounds <= 0 {
 		job.Rounds = 1
